@@ -16,6 +16,7 @@ PROP = {
         ],
         "known_classes": [],
         "theorem_notes": {
+            "C19_spec_equiv": "full (conformance, beyond the property text): on every string of HTTP quoted-string token code points Mime::from_str equals the MIME Sniffing Standard's 'parse a MIME type' (Spec/MimeSniff.v); exclusion = exactly the class of F-C19-2; proved in Proofs/C17_Mime.v",
             "C19_rt": "full: for every &str s with parse s = Some m, display m does not panic and parses to exactly m (type, subtype, parameter list incl. order and values)",
             "C19_rt_wf": "full, and stronger than the property text: the normal form of C19_normal is sufficient for the round trip of ANY Mime value with public fields set by hand",
             "C19_normal": "full; additionally states what holds of values: up to its first ';' every value consists of HTTP quoted-string token code points (TAB, 0x20-0x7E, 0x80-0xFF). After the first ';' of a quoted value the code does not validate anything (valid_value is applied to the first ';'-piece of the raw value only), so arbitrary code points can follow; this is what the model and the crate both do and it does not break the round trip",
